@@ -1031,3 +1031,136 @@ func TestVerifC13RawE2E(t *testing.T) {
 		},
 	})
 }
+
+// ---- binary metadata: every value of every -bin key is looked at ----
+
+type vfBinMetaCase struct {
+	Where   string  `json:"where"` // headers, trailers, metadata
+	Entries []vfBinHdr `json:"entries"`
+}
+
+type vfBinHdr struct {
+	Name  string   `json:"name"`
+	Value []string `json:"value"`
+}
+
+// vfBinValueKind classifies one -bin value independently of the code: "ok" (unpadded base64), "padded", "invalid".
+func vfBinValueKind(v string) string {
+	if strings.ContainsAny(v, "\r\n") {
+		return "invalid"
+	}
+	body := strings.TrimRight(v, "=")
+	for i := 0; i < len(body); i++ {
+		c := body[i]
+		if !(c >= 'A' && c <= 'Z' || c >= 'a' && c <= 'z' || c >= '0' && c <= '9' || c == '+' || c == '/') {
+			return "invalid"
+		}
+	}
+	pad := len(v) - len(body)
+	switch {
+	case len(body)%4 == 1:
+		return "invalid"
+	case pad == 0:
+		return "ok"
+	case (len(body)+pad)%4 == 0 && pad <= 2:
+		return "padded"
+	}
+	return "invalid"
+}
+
+func TestVerifC13BinMeta(t *testing.T) {
+	names := []string{"x-data-bin", "X-Data-Bin", "x-other-bin", "trace-Bin", "x-plain", "content-type", "grpc-status-details-bin", "x-bin-not", "bin"}
+	verifkit.Run(t, "C13BinMeta", verifkit.Spec[vfBinMetaCase]{
+		Gen: func(t *rapid.T) vfBinMetaCase {
+			c := vfBinMetaCase{Where: rapid.SampledFrom([]string{"headers", "trailers", "metadata"}).Draw(t, "where")}
+			for i, n := 0, rapid.IntRange(1, 4).Draw(t, "entries"); i < n; i++ {
+				h := vfBinHdr{Name: rapid.SampledFrom(names).Draw(t, "name")}
+				for j, k := 0, rapid.IntRange(1, 4).Draw(t, "values"); j < k; j++ {
+					raw := rapid.SliceOfN(rapid.Byte(), 0, 7).Draw(t, "raw")
+					switch rapid.IntRange(0, 5).Draw(t, "valueKind") {
+					case 0:
+						h.Value = append(h.Value, base64.StdEncoding.EncodeToString(raw)) // padded unless len%3 == 0
+					case 1:
+						h.Value = append(h.Value, rapid.SampledFrom([]string{"not base64!", "a", "ab=c", "%%%", "AAE", "AAEC="}).Draw(t, "bad"))
+					default:
+						h.Value = append(h.Value, base64.RawStdEncoding.EncodeToString(raw))
+					}
+				}
+				c.Entries = append(c.Entries, h)
+			}
+			return c
+		},
+		Check: func(c vfBinMetaCase) error {
+			var md []*conformancev1.Header
+			for _, e := range c.Entries {
+				md = append(md, &conformancev1.Header{Name: e.Name, Value: append([]string{}, e.Value...)})
+			}
+			p := &internal.SimplePrinter{}
+			checkBinaryMetadata(c.Where, md, p)
+			// the first value that is not plain unpadded base64, in list order
+			firstName, firstKind, firstVal := "", "", ""
+			anyBad := false
+			for _, e := range c.Entries {
+				lower := strings.ToLower(e.Name)
+				if !strings.HasSuffix(lower, "-bin") || lower == "grpc-status-details-bin" {
+					continue
+				}
+				for _, v := range e.Value {
+					if k := vfBinValueKind(v); k != "ok" && !anyBad {
+						anyBad, firstName, firstKind, firstVal = true, e.Name, k, v
+					}
+				}
+			}
+			if !anyBad {
+				if len(p.Messages) != 0 {
+					return verifkit.Violf("binmeta-wellformed-flagged", "all binary values are unpadded base64 but feedback was given: %q (entries %v)", p.Messages, c.Entries)
+				}
+				return nil
+			}
+			if len(p.Messages) == 0 {
+				return verifkit.Violf("binmeta-malformed-accepted:"+firstKind, "%s entry %q has the %s value %q but no feedback was given (entries %v)", c.Where, firstName, firstKind, firstVal, c.Entries)
+			}
+			want := "incorrectly-encoded"
+			if firstKind == "padded" {
+				want = "padding"
+			}
+			if !strings.Contains(p.Messages[0], want) || !strings.Contains(p.Messages[0], "'"+firstName+"'") || !strings.HasPrefix(p.Messages[0], c.Where) {
+				return verifkit.Violf("binmeta-wrong-feedback:"+firstKind, "first feedback %q does not describe the first offending value (%s %q of %q, %s)", p.Messages[0], firstKind, firstVal, firstName, c.Where)
+			}
+			return nil
+		},
+		Classify: func(c vfBinMetaCase) ([]string, bool) {
+			multi, bad, badLater := false, false, false
+			for _, e := range c.Entries {
+				lower := strings.ToLower(e.Name)
+				if !strings.HasSuffix(lower, "-bin") || lower == "grpc-status-details-bin" {
+					continue
+				}
+				if len(e.Value) > 1 {
+					multi = true
+				}
+				for i, v := range e.Value {
+					if vfBinValueKind(v) != "ok" {
+						bad = true
+						if i > 0 {
+							badLater = true
+						}
+					}
+				}
+			}
+			var cl []string
+			if multi {
+				cl = append(cl, "multi-valued")
+			}
+			if bad {
+				cl = append(cl, "malformed")
+			} else {
+				cl = append(cl, "well-formed")
+			}
+			if badLater {
+				cl = append(cl, "bad-value-not-first")
+			}
+			return cl, multi || bad
+		},
+	})
+}
